@@ -46,12 +46,21 @@ pub struct Naming {
     next_unknown: S,
 }
 
-pub const NAMING_KINDS: u32 = 7;
+pub const NAMING_KINDS: u32 = 8;
 pub const UNKNOWN_BASE: S = 500_000;
 
 impl Naming {
     pub fn new(kind: u32) -> Naming {
-        Naming { kind, fwd: BTreeMap::new(), rev: BTreeMap::new(), next_unknown: UNKNOWN_BASE }
+        let mut n = Naming { kind, fwd: BTreeMap::new(), rev: BTreeMap::new(), next_unknown: UNKNOWN_BASE };
+        if kind == 7 {
+            // user slots that look like the crate's own fresh slots ($f<n>). They are all created
+            // up front, before the e-graph invents any slot, so hygiene (C17) is what keeps the
+            // later internal slots apart from them.
+            for s in 0..64 {
+                n.slot(s);
+            }
+        }
+        n
     }
 
     fn make(&self, s: S) -> Slot {
@@ -75,6 +84,13 @@ impl Naming {
             5 => Slot::numeric(((s as u64 * 7919 + 13) % 1_000_003) as u32),
             // textual with shared prefix and varying length
             6 => Slot::named(&format!("s{}_{}", "x".repeat((s % 5) as usize + 1), s)),
+            7 => {
+                if s < 64 {
+                    Slot::named(&format!("f{}", s * 3 + 2))
+                } else {
+                    Slot::numeric(s + 1000)
+                }
+            }
             k => panic!("unknown naming {k}"),
         }
     }
